@@ -168,10 +168,11 @@ class PolicyEnv:
         return conf
 
     def enforcer(self, defaults=(), policy_dirs=('policy.d',),
-                 policy_file=None, default_rule=None, **overrides):
+                 policy_file=None, default_rule=None, overwrite=True,
+                 **overrides):
         conf = self.conf(policy_dirs=policy_dirs, **overrides)
         enf = policy.Enforcer(conf, policy_file=policy_file,
-                              default_rule=default_rule)
+                              default_rule=default_rule, overwrite=overwrite)
         enf.suppress_deprecation_warnings = True
         if defaults:
             enf.register_defaults(list(defaults))
